@@ -1,5 +1,6 @@
 (* C02 — the client sees exactly the handler's final status; success only if it succeeded. *)
 From Coq Require Import ZArith List Bool.
+From Grpchan Require model.HttpClient proofs.HttpClient corr.HttpSched proofs.HttpTrace.
 From Grpchan Require Import model.StreamSeq proofs.StreamSeq model.StatusHttp proofs.C14 model.Framing proofs.C07 proofs.C07gen gen.Wire.
 Import ListNotations.
 Open Scope Z_scope.
@@ -32,3 +33,25 @@ Theorem C02_truncated_is_error : forall ms t e k,
   cut_ok (client_decode size_rejected client_size_rejected (firstn k (enc_stream ms t)) e) ms.
 Proof. exact client_truncation_now. Qed.
 Print Assumptions C02_truncated_is_error.
+
+(* ---- the HTTP client stream as a concurrent system (model/HttpClient.v): the reader goroutine, the caller's
+   receives, the transport's deliveries and the end of the context in every interleaving, for every reply body.
+   hreach carries ghost histories: the frames the reader's loop read (rd), those the deferred ReadAll threw
+   away (dn), and what RecvMsg returned (lg). *)
+
+(* io.EOF is returned on a response stream only after the loop has read a trailer frame that says OK, and then
+   every data frame it read has been delivered: over HTTP too a clean end of stream is a complete stream *)
+Theorem C02_http_eof_means_complete : forall b0 e0 s rd dn lg,
+  Grpchan.proofs.HttpClient.hreach true b0 e0 s rd dn lg -> Grpchan.model.HttpClient.respStream s = true ->
+  In Grpchan.model.HttpClient.REOF lg ->
+  Grpchan.model.HttpClient.tr s = Some 0 /\ Grpchan.model.HttpClient.rErr s = None /\
+  Grpchan.proofs.HttpClient.datas rd = Grpchan.proofs.HttpClient.msgs_of lg.
+Proof. exact Grpchan.proofs.HttpClient.eof_means_complete. Qed.
+Print Assumptions C02_http_eof_means_complete.
+
+(* a schedule of the real client accepted by the correspondence check is a run of that system *)
+Theorem C02_http_accepted_schedule_is_a_run : forall rs b0 e0 rounds,
+  HttpSched.accepts_from [Grpchan.model.HttpClient.init rs b0 e0] rounds = true ->
+  exists s rd dn lg, Grpchan.proofs.HttpClient.hreach rs b0 e0 s rd dn lg /\ Grpchan.proofs.HttpClient.Inv b0 s rd dn lg.
+Proof. exact HttpTrace.accepted_http_schedule_is_a_run. Qed.
+Print Assumptions C02_http_accepted_schedule_is_a_run.
